@@ -11,7 +11,14 @@
    Transactions: t, t2 (= t with a re-encoded signature), u, boxes b = [t], bb = [t, t], bu = [t, u] and w = [t] (another
    box - other signed wrapper - around the same t); r, a reimbursement transaction (its sender signs without gasPrice /
    gasLimit, its gas payer fills them in and signs), and r2 = the same sender-signed r priced and signed again by its gas payer;
-   t3 = t with a signature appended by somebody else.  A block carries a SEQUENCE of them (duplicates possible) in one
+   t3 = t with a signature appended by somebody else.
+   The carrier of a transaction of its OWN has optional / defaulted / derivable members too (gasPayer: absent means the sender; to;
+   toName / message / data: empty or absent; version; the redundant hash and gasUsed).  n = a transfer whose sender left gasPayer out
+   and signed it so; tv / nv = t / n written again by somebody else with such a member dropped, defaulted or written redundantly
+   (the signature bytes are the sender's); bv = [tv] = a box around t written that way.  Which member, and how, is the own-carrier
+   form e \in OwnEncs of the block that carries the variant.  A variant is one more transaction with the payload of its original: it
+   is refused or it is the original to the replay guard (an implementation whose signatures cover the raw members refuses it).
+   A block carries a SEQUENCE of them (duplicates possible) in one
    carrier encoding e \in Encs ("c" = canonical: what the node's own marshaller writes).
    Offer(p, tm, L, e): a block on p with timestamp tm carrying L, its carriers written in encoding e, is built and offered.
    Design verdict Valid: every transaction (and sub-transaction) inside its window at tm, no signed payload twice inside
@@ -21,7 +28,8 @@
      DupCheck = FALSE         nothing looks for duplicates inside one block / one box
      PayloadIdentity = FALSE  identity of a transaction is the hash over its signature bytes and over what its gas payer filled
                               in (the code as written)
-     CarrierIdentity = TRUE   a sub-transaction read from a box payload is filed under what the payload says it is *)
+     CarrierIdentity = TRUE   a sub-transaction read from a box payload is filed under what the payload says it is, a transaction
+                              written in another form of its own carrier under that form *)
 EXTENDS Integers, Sequences, FiniteSets, TLC
 CONSTANTS Times, ExpChoices, OfferMenu, MaxBlocks, MaxBoots, DupCheck, PayloadIdentity,
           Encs,             \* carrier encodings ("c" and names of manipulations the adapter implements on real payloads)
@@ -29,9 +37,12 @@ CONSTANTS Times, ExpChoices, OfferMenu, MaxBlocks, MaxBoots, DupCheck, PayloadId
 Life == 1800
 Canon == "c"
 RlpEncs == {"g"}            \* manipulations that also exist for the RLP carrier of a transaction of its own (gasUsed)
-Tx == {"t", "t2", "t3", "u", "b", "bb", "bu", "w", "r", "r2"}
-SubsOf(x) == CASE x = "b" -> <<"t">> [] x = "bb" -> <<"t", "t">> [] x = "bu" -> <<"t", "u">> [] x = "w" -> <<"t">> [] OTHER -> <<>>
-Payload(x) == CASE x \in {"t2", "t3"} -> "t" [] x = "r2" -> "r" [] OTHER -> x        \* what the sender signed
+OwnEncs == {"p", "q", "o", "r", "v"}   \* forms of a transaction's own carrier: gasPayer toggled (p; q: JSON null), defaults dropped (o), to toggled (r), version defaulted (v)
+JsonOwnEncs == {"q", "o"}             \* those that differ from p / from the original only in JSON carriers (box payloads, RPC)
+Variants == {"tv", "nv"}
+Tx == {"t", "t2", "t3", "u", "b", "bb", "bu", "w", "r", "r2", "n", "tv", "nv", "bv"}
+SubsOf(x) == CASE x = "b" -> <<"t">> [] x = "bb" -> <<"t", "t">> [] x = "bu" -> <<"t", "u">> [] x = "w" -> <<"t">> [] x = "bv" -> <<"tv">> [] OTHER -> <<>>
+Payload(x) == CASE x \in {"t2", "t3", "tv"} -> "t" [] x = "r2" -> "r" [] x = "nv" -> "n" [] OTHER -> x        \* what the sender signed
 Ident(x) == IF PayloadIdentity THEN Payload(x) ELSE x
 Range(s) == {s[i] : i \in 1..Len(s)}
 Closure(x) == {x} \cup Range(SubsOf(x))
@@ -45,11 +56,13 @@ FlagAll(L) == IF L = <<>> THEN <<>> ELSE SubFlag(Head(L)) \o FlagAll(Tail(L))
 NoDup(s) == \A i, j \in 1..Len(s) : i # j => s[i] # s[j]
 Map(s, F(_)) == [i \in 1..Len(s) |-> F(s[i])]
 HasBox(L) == \E i \in 1..Len(L) : SubsOf(L[i]) # <<>>
-\* the carrier encodings that make a difference for the list L
-Carried(L, e) == e = Canon \/ HasBox(L) \/ (L # <<>> /\ e \in RlpEncs)
+HasVar(L) == Range(ExecAll(L)) \cap Variants # {}
+\* the carrier encodings that make a difference for the list L; a variant exists only in an own-carrier form
+Carried(L, e) == IF e \in OwnEncs THEN HasVar(L) /\ (e \in JsonOwnEncs => HasBox(L))
+                 ELSE ~HasVar(L) /\ (e = Canon \/ HasBox(L) \/ (L # <<>> /\ e \in RlpEncs))
 \* the identities under which the replay guard files what a block (list L in carrier encoding e) executes
 Filed(L, e) == LET X == ExecAll(L)  F == FlagAll(L) IN
-               [k \in 1..Len(X) |-> IF CarrierIdentity /\ e # Canon /\ F[k] THEN <<Ident(X[k]), e, k>> ELSE <<Ident(X[k])>>]
+               [k \in 1..Len(X) |-> IF CarrierIdentity /\ e # Canon /\ (F[k] \/ X[k] \in Variants) THEN <<Ident(X[k]), e, k>> ELSE <<Ident(X[k])>>]
 
 VARIABLES exp, blocks, stable, dead,
           boots     \* the restarts so far, each as <<number of blocks, stable block>> at that moment: a restart rebuilds the node's guard from
@@ -86,7 +99,7 @@ Spec == Init /\ [][Next]_vars
 Count(s, x) == Cardinality({i \in 1..Len(s) : s[i] = x})
 RECURSIVE Execs(_, _)
 Execs(b, x) == IF b = 0 THEN 0 ELSE Count(Map(ExecAll(blocks[b].txl), Payload), x) + Execs(blocks[b].parent, x)
-AtMostOnce == \A X \in 1..N : blocks[X].acc => \A x \in {"t", "u", "b", "bb", "bu", "w", "r"} : Execs(X, x) <= 1
+AtMostOnce == \A X \in 1..N : blocks[X].acc => \A x \in {"t", "u", "b", "bb", "bu", "w", "r", "n", "bv"} : Execs(X, x) <= 1
 InWindow == \A X \in 2..N : blocks[X].acc => \A i \in 1..Len(blocks[X].txl) : Legal(blocks[X].txl[i], blocks[X].time)
 \* what was executed only on another fork may be executed again, and no carrier makes a valid block unacceptable: such an offer is accepted
 ForkFree == \A X \in 2..N : LET L == blocks[X].txl IN
